@@ -150,7 +150,17 @@ func (t *ImmutableTree) Has(key []byte) (bool, error) {
 
 // Hash returns the root hash.
 func (t *ImmutableTree) Hash() []byte {
-	return t.root.hashWithCount(t.version + 1)
+	return t.root.hashWithCount(t.nextVersion())
+}
+
+// nextVersion returns the version which the nodes of this tree that are not saved yet will be
+// saved with (and are therefore hashed with): the initial version for a tree without any saved
+// version, the successor of the tree's version otherwise. See MutableTree.WorkingVersion.
+func (t *ImmutableTree) nextVersion() int64 {
+	if t.version == 0 && t.ndb != nil && t.ndb.opts.InitialVersion > 0 {
+		return int64(t.ndb.opts.InitialVersion) // nolint:gosec // the integer version is always positive
+	}
+	return t.version + 1
 }
 
 // Export returns an iterator that exports tree nodes as ExportNodes. These nodes can be
@@ -286,7 +296,7 @@ func (t *ImmutableTree) IterateRangeInclusive(start, end []byte, ascending bool,
 		if node.subtreeHeight == 0 {
 			// a leaf of the working tree which is not saved yet has no node key;
 			// it will be saved with the next version.
-			version := t.version + 1
+			version := t.nextVersion()
 			if node.nodeKey != nil {
 				version = node.nodeKey.version
 			}
